@@ -21,7 +21,7 @@ Definition wit_cfg (mode : mem_trunc_mode) : mem_config :=
      c_cfg_init := wit_levels ++ [wit_literal];
      c_extract := [TSimple (TDelFields [7%nat])];
      c_transforms := [TSimple (TAddLit 9 8); TSimple (TTruncate 9 5 [46;46])];
-     c_outputs := [wit_out]; c_trunc_mode := mode; c_rw_sets_flag := true |}.
+     c_outputs := [wit_out]; c_trunc_mode := mode; c_rw_sets_flag := false |}.
 
 (* "<163>1 2019-08-15T15:50:46Z host1 app 123 src - hello world, this is a message" (longer than 48 bytes: pooled) *)
 Definition wit_input : bytes :=
@@ -66,7 +66,7 @@ Definition wit_cfg_facility (mode : mem_trunc_mode) : mem_config :=
      c_cfg_init := wit_levels;
      c_extract := [TSimple (TDelFields [7%nat])];
      c_transforms := [TSimple (TTruncate 0 2 [126])];
-     c_outputs := [wit_out]; c_trunc_mode := mode; c_rw_sets_flag := true |}.
+     c_outputs := [wit_out]; c_trunc_mode := mode; c_rw_sets_flag := false |}.
 
 Lemma wit_facility_fault :
   mem_run (wit_cfg_facility TruncInPlace) (mem_init (wit_cfg_facility TruncInPlace))
@@ -79,8 +79,8 @@ Lemma wit_facility_copy_ok :
             map (fun e => d_fields (snd e)) (g_out g) <> [].
 Proof. eexists. split; [vm_compute; reflexivity|vm_compute; discriminate]. Qed.
 
-(* the unescape rewriter sets the flag on the shared record (DESIGN.md section 6 #15, owned by property C10):
-   with two outputs that both rewrite "log" with unescape, the second output is not unescaped *)
+(* BEFORE the repair a539f2f (property C10) the unescape rewriter set the flag on the shared record (c_rw_sets_flag = true):
+   with two outputs that both rewrite "log" with unescape, the second output was not unescaped *)
 Definition wit_rw : mem_outcfg := {| oc_env := [3%nat]; oc_hidden := []; oc_rewrite := [(8%nat, {| rw_inline := []; rw_unescape := true |})] |}.
 Definition wit_cfg_flag (flag : bool) : mem_config :=
   {| c_params := wit_params; c_nfields := 12; c_maxfields := 14; c_level_sites := Some 0%nat;
@@ -111,7 +111,7 @@ Definition wit_cfg_drop (nout : nat) : mem_config :=
   {| c_params := wit_params; c_nfields := 12; c_maxfields := 14; c_level_sites := Some 0%nat;
      c_cfg_init := wit_levels; c_extract := [TSimple (TDelFields [7%nat])];
      c_transforms := [TDrop [CAny 3]];
-     c_outputs := repeat wit_out nout; c_trunc_mode := TruncCopy; c_rw_sets_flag := true |}.
+     c_outputs := repeat wit_out nout; c_trunc_mode := TruncCopy; c_rw_sets_flag := false |}.
 
 Definition wit_slot_states (g : mem_gstate) : list (nat * Z) :=
   map (fun s => (match sl_state s with SInPool => 0 | SLive _ => 1 | SAbandoned => 2 end, r_refc (sl_rec s)))%nat (g_slots g).
@@ -134,7 +134,7 @@ Definition wit_cfg_own (mode : mem_trunc_mode) : mem_config :=
      c_cfg_init := wit_levels ++ [wit_literal];
      c_extract := [TSimple (TDelFields [7%nat])];
      c_transforms := [TSimple (TAddLit 9 8); TSimple (TUnescape 8%nat); TIf [CAny 4%nat] [TTruncate 8 10 [46%N;46%N]]];
-     c_outputs := [wit_out; wit_rw]; c_trunc_mode := mode; c_rw_sets_flag := true |}.
+     c_outputs := [wit_out; wit_rw]; c_trunc_mode := mode; c_rw_sets_flag := false |}.
 
 Lemma wit_static_own : mem_static_targets_own (wit_cfg_own TruncInPlace) = true.
 Proof. vm_compute. reflexivity. Qed.
